@@ -217,6 +217,10 @@ class OpGen:
                 continue
             text = (f"{alias}: " if alias else "") + fname + args
             directive = self._directive()
+            if directive and is_composite_type(named) and is_abstract_type(named) and isinstance(fdef.type, GraphQLNonNull) \
+                    and not d.enabled("sel.directive_on_nonnull_abstract_field"):
+                self._rollback(mark)
+                continue
             if is_composite_type(named):
                 sub = self.selection_set(named, depth + 1, None, in_fragment)
                 if sub is None:
@@ -509,6 +513,12 @@ def _val(d, desc, t, depth, ctx, nullable):
         return {"$e": [name, d.choice(desc.enums[name])]}
     if name in desc.scalars:
         d.tag(f"{ctx}.custom_scalar")
+        kind = getattr(desc, "scalar_kinds", {}).get(name)
+        if kind == "money":
+            desc.money_counter = getattr(desc, "money_counter", 0) + 1
+            return {"$money": desc.money_counter}
+        if kind == "datetime":
+            return {"$dt": d.choice(["2020-01-02T03:04:05", "1999-12-31T23:59:59", "2024-02-29T00:00:00"])}
         return d.choice(["sc", 7, True, {"k": [1, 2]}, [1, "a"]])
     if name in desc.inputs:
         d.tag(f"{ctx}.input")
@@ -543,6 +553,10 @@ def spec_to_json(spec):
     """The JSON the server must receive for a value specification."""
     if isinstance(spec, dict) and "$e" in spec:
         return spec["$e"][1]
+    if isinstance(spec, dict) and "$money" in spec:
+        return f"m#{spec['$money']}"
+    if isinstance(spec, dict) and "$dt" in spec:
+        return spec["$dt"]
     if isinstance(spec, dict) and "$i" in spec:
         return {k: spec_to_json(v) for k, v in spec["f"].items()}
     if isinstance(spec, list):
